@@ -38,7 +38,7 @@ func init() {
 			{Name: "the federation visitor starts without planning messages (reverts the F66 fix)", File: "v2/pkg/engine/datasource/grpc_datasource/execution_plan_visitor_federation.go", Rule: "C20-R18", Key: "rpcPlanVisitorFederation/planning-message-never-nil:currentResponseMessage",
 				Old: "\t\t\tcurrentRequestMessage:    &RPCMessage{},\n\t\t\tcurrentResponseMessage:   &RPCMessage{},\n\t\t\tresponseMessageAncestors: []*RPCMessage{},\n\t\t},\n\t}\n\n\twalker.RegisterDocumentVisitor(visitor)", New: "\t\t\tresponseMessageAncestors: []*RPCMessage{},\n\t\t},\n\t}\n\n\twalker.RegisterDocumentVisitor(visitor)"},
 			{Name: "an unpopulated scalar field counts as absent (seeded change C20-2)", File: "v2/pkg/engine/datasource/grpc_datasource/compiler.go", Rule: "C20-R17", Key: "RPCCompiler.getMessageField/presence-only-where-tracked",
-				Old: "\tfd := message.Descriptor().Fields().ByName(protoref.Name(fieldName))\n\tif fd == nil {\n", New: "\tfd := message.Descriptor().Fields().ByName(protoref.Name(fieldName))\n\tif fd == nil || !message.Has(fd) {\n"},
+				Old: "\tfd := message.Descriptor().Fields().ByName(protoref.Name(fieldName))\n\tif fd == nil {\n\t\treturn protoref.Value{}, nil\n", New: "\tfd := message.Descriptor().Fields().ByName(protoref.Name(fieldName))\n\tif fd == nil || !message.Has(fd) {\n\t\treturn protoref.Value{}, nil\n"},
 			{Name: "the gRPC exemption from minification is decided when the minifier is enabled, not when it is used (seeded change C20-13)", File: "v2/pkg/engine/datasource/graphql_datasource/graphql_datasource.go", Rule: "C20-R16", Key: "Planner.printOperation/minify-only-when-not-grpc",
 				Old: "if p.minifier != nil && !p.config.IsGRPC() && len(rawOperationBytes) > 140 {", New: "if p.minifier != nil && len(rawOperationBytes) > 140 {"},
 			{Name: "the dependency graph is keyed by the position of a call, not by its id (seeded changes C20-1, C20-12)", File: "v2/pkg/engine/datasource/grpc_datasource/fetch.go", Rule: "C20-R15", Key: "NewDependencyGraph/keyed-by-call-id",
